@@ -344,6 +344,45 @@ theorem nextDown_fin (s : Bool) (c : Nat) (e : Int) :
 
 theorem negate_fin (s : Bool) (c : Nat) (e : Int) : (Datum.fin s c e).negate = .fin (!s) c e := rfl
 
+/-- **next_down is the mirror image**: for a finite non-zero member x of the format, a finite
+`nextDownD x` is a member of the format, strictly below x, above-or-equal every member of the format
+that is strictly below x, and in least-exponent form; an infinite result is `-Inf`, only for
+`x = -MAX`. -/
+theorem nextDown_isPred (s : Bool) (c : Nat) (e : Int) (hc0 : c ≠ 0) (hrep : Representable c e) :
+    (∀ s' c' e', nextDownD (.fin s c e) = .fin s' c' e' →
+      Representable c' e' ∧ fval s' c' e' < fval s c e ∧
+      (∀ (s'' : Bool) (c'' : Nat) (e'' : Int), Representable c'' e'' → fval s'' c'' e'' < fval s c e →
+        fval s'' c'' e'' ≤ fval s' c' e') ∧
+      (P33 ≤ c' ∨ e' = eMin)) ∧
+    (∀ s', nextDownD (.fin s c e) = .inf s' → s' = true ∧ s = true ∧ c = P34 - 1 ∧ e = eMax) ∧
+    (∀ a b p, nextDownD (.fin s c e) ≠ .nan a b p) := by
+  have H := nextUp_isSucc (!s) c e hc0 hrep
+  rw [fval_not] at H
+  rw [nextDown_fin]
+  cases hz : nextUpD (.fin (!s) c e) with
+  | nan a b p => rw [hz] at H; exact absurd H id
+  | inf s2 =>
+    obtain ⟨h1, h2, h3, h4, _⟩ := nextUp_inf (!s) c e hc0 hrep s2 hz
+    refine ⟨fun s' c' e' h => by simp [Datum.negate, Datum.setSign] at h, fun s' h => ?_,
+      fun a b p h => by simp [Datum.negate, Datum.setSign] at h⟩
+    simp only [Datum.negate, Datum.setSign, Datum.neg, Datum.inf.injEq] at h
+    subst h1
+    refine ⟨by rw [← h]; rfl, by cases s <;> simp_all, h3, h4⟩
+  | fin s2 c2 e2 =>
+    rw [hz] at H
+    obtain ⟨hzrep, hlt, hleast, hform⟩ := H
+    refine ⟨fun s' c' e' h => ?_, fun s' h => by simp [Datum.negate, Datum.setSign] at h,
+      fun a b p h => by simp [Datum.negate, Datum.setSign] at h⟩
+    simp only [Datum.negate, Datum.setSign, Datum.neg, Datum.fin.injEq] at h
+    obtain ⟨hs, hc', he'⟩ := h
+    subst hs hc' he'
+    refine ⟨hzrep, by rw [fval_not]; linarith, fun s'' c'' e'' hr hlt'' => ?_, hform⟩
+    have := hleast (!s'') c'' e'' hr (by rw [fval_not]; linarith)
+    rw [fval_not] at this ⊢
+    linarith
+
+example : nextDownD (.fin false 1 0) = .fin false (P34 - 1) (-34) := by decide
+
 /-- **next_down undoes next_up in value**, for every finite member of the format (zero included; for
 `x = +MAX` the intermediate result is +Inf).  The result need not be the same cohort member as x. -/
 theorem nextDown_nextUp (s : Bool) (c : Nat) (e : Int) (hrep : Representable c e) :
